@@ -59,6 +59,7 @@ def run(chk, tier, seed):
     finally:
         shutil.rmtree(tmpb, ignore_errors=True)
     from checks import fixed_clauses
+    fixed_clauses.pathlib_uniqueness_and_history(chk)
     fixed_clauses.rglob_exclusions(chk)
     chk.rule = ('bounded stand-in: for every (tree, pattern, flags): list(Path.glob) == [root/x for x in glob.glob(root_dir=root, flags|_NOABSOLUTE|_PATHLIB)] for the root and a '
                 'sub-directory; rglob == glob with the implicit recursive prefix; user FORCEWIN/FORCEUNIX ignored; no duplicates unless NOUNIQUE; q.match(p, REALPATH) <=> q in '
